@@ -54,13 +54,15 @@ type CryptObj struct {
 
 // CryptDoc is an encrypted document with its plaintext model.
 type CryptDoc struct {
-	Cfg      CryptConfig
-	Data     []byte
-	Objs     []*CryptObj
-	Canaries [][]byte // every plaintext string / unfiltered stream body contains one
-	Pages    pdf.Reference
-	Title    string
+	Cfg       CryptConfig
+	Data      []byte
+	Objs      []*CryptObj
+	Canaries  [][]byte // every plaintext string / unfiltered stream body contains one
+	Pages     pdf.Reference
+	Title     string
 	MetaTitle string
+	// DeferredPuts counts the objects Put while a stream was open.
+	DeferredPuts int
 }
 
 // canary returns 16 random letters: never escaped in a literal string, so a
@@ -185,10 +187,33 @@ func BuildCryptDoc(r *kit.Rand, cfg CryptConfig) (*CryptDoc, error) {
 				filters = append(filters, pdf.FilterASCIIHex{})
 				filtered = true
 			}
-			s, err := w.OpenStream(ref, dict, filters...)
-			if err == nil {
-				_, err = s.Write(body)
+			if r.Chance(1, 5) {
+				body = append(body, r.Bytes(1000+r.Intn(1500))...) // past the Writer's buffering threshold
 			}
+			s, err := w.OpenStream(ref, dict, filters...)
+			// objects Put while the stream is open are written after it
+			var deferred []*CryptObj
+			putDeferred := func() {
+				if err != nil || !r.Chance(1, 3) {
+					return
+				}
+				ref2 := w.Alloc()
+				v := value(2)
+				if err = w.Put(ref2, v); err == nil {
+					deferred = append(deferred, &CryptObj{Ref: ref2, Value: Clone(v)})
+					d.DeferredPuts++
+				}
+			}
+			putDeferred()
+			if err == nil {
+				half := len(body) / 2
+				_, err = s.Write(body[:half])
+				putDeferred()
+				if err == nil {
+					_, err = s.Write(body[half:])
+				}
+			}
+			putDeferred()
 			if err == nil {
 				err = s.Close()
 			}
@@ -196,6 +221,7 @@ func BuildCryptDoc(r *kit.Rand, cfg CryptConfig) (*CryptDoc, error) {
 				return d, fmt.Errorf("stream: %w", err)
 			}
 			d.Objs = append(d.Objs, &CryptObj{Ref: ref, Value: Clone(dict), IsStream: true, Body: bytes.Clone(body), Filtered: filtered})
+			d.Objs = append(d.Objs, deferred...)
 		}
 	}
 	d.Pages = w.Alloc()
